@@ -19,6 +19,9 @@ class GaussianModel:
         self.geographic_unit_type = model_settings.get("geographic_unit_type")
         self.winsorize = model_settings.get("winsorize", False)
         self.beta = model_settings.get("beta", 1)
+        # same default as the election models; an integer seed gives every scale bootstrap its own fresh,
+        # reproducible generator, so the result does not depend on what else was computed before
+        self.seed = model_settings.get("seed", 4191)
 
     def _empty_gaussian_model(self, conformalization_data, aggregate):
         """
@@ -108,9 +111,13 @@ class GaussianModel:
                             ).to_numpy(),
                         ),
                         "sigma_lower_bound": self.beta
-                        * math_utils.boot_sigma(x.lower_bounds.values, conf=(3 + alpha) / 4, winsorize=self.winsorize),
+                        * math_utils.boot_sigma(
+                            x.lower_bounds.values, conf=(3 + alpha) / 4, winsorize=self.winsorize, random_state=self.seed
+                        ),
                         "sigma_upper_bound": self.beta
-                        * math_utils.boot_sigma(x.upper_bounds.values, conf=(3 + alpha) / 4, winsorize=self.winsorize),
+                        * math_utils.boot_sigma(
+                            x.upper_bounds.values, conf=(3 + alpha) / 4, winsorize=self.winsorize, random_state=self.seed
+                        ),
                     }
                 ),
                 include_groups=False,
